@@ -1,9 +1,11 @@
 SPECIFICATION Spec
 CONSTANTS
   Cons <- ClassCons
-  Terms = {"semi","nl","omit"}
+  Terms = {"semi"}
   MaxE = 1
-  MaxS = 2
-  MaxX = 3
-  MaxStack = 4
+  MaxS = 1
+  MaxX = 2
+  MaxP = 0
+  MaxL = 0
+  MaxTop = 1
 CHECK_DEADLOCK FALSE
